@@ -7,6 +7,7 @@ import (
 	"fmt"
 	"io"
 	"net"
+	"net/url"
 	"os"
 	"sort"
 	"strconv"
@@ -40,6 +41,59 @@ type Entry struct {
 	//   query      ?e<i>=1                       (uri and http/json; raw request lines cannot be written that way: abs_query)
 	// The entry is then recognised by the Host header or the query instead of the first path element.
 	NoPath string `json:"no_path,omitempty"`
+	// LocKind: the Location header of the answer - "" none | empty (`Location:` with nothing behind it) | wellformed |
+	// malformed (a value url.Parse rejects). With `redirect: false` (the default) the guns do not follow redirects: the
+	// answer IS the result of the shot, whatever its status (301/302/303/307/308 included) and whatever its Location
+	// header says, so the sample carries the status received and net code 0 like for any other answer.
+	LocKind  string `json:"location_kind,omitempty"`
+	Location string `json:"location,omitempty"`
+}
+
+// redirectStatuses are the statuses an HTTP client that follows redirects would act on.
+var redirectStatuses = []int{301, 302, 303, 307, 308}
+
+func isRedirect(status int) bool {
+	for _, s := range redirectStatuses {
+		if s == status {
+			return true
+		}
+	}
+	return false
+}
+
+var (
+	wellformedLocations = []string{"/next", "next?x=1", "http://other.c10.example/next", "//cdn.c10.example/a/b", "https://e.c10.example:8443/p?q=1#frag", "../up", "?only=query"}
+	// none of these parses as a URL (checked by init)
+	malformedLocations = []string{"http://[::1", "/next%zz", "http://exa mple.org/", ":next", "http://host:port/x", "%", "http://[fe80::1%en0]/", "/a%2", "http://a b/c", "1http:/%gg"}
+)
+
+func init() {
+	for _, l := range wellformedLocations {
+		if _, err := url.Parse(l); err != nil {
+			panic(fmt.Sprintf("harness: %q is listed as a well-formed Location but does not parse: %v", l, err))
+		}
+	}
+	for _, l := range malformedLocations {
+		if _, err := url.Parse(l); err == nil {
+			panic(fmt.Sprintf("harness: %q is listed as a malformed Location but parses", l))
+		}
+	}
+}
+
+// locationHeader is the Location header line of a hand-written answer ("" when the answer has none).
+func (e Entry) locationHeader() string {
+	if e.LocKind == "" {
+		return ""
+	}
+	return "Location: " + e.Location + "\r\n"
+}
+
+// respHeader is the header map of a scripted answer.
+func (e Entry) respHeader() map[string]string {
+	if e.LocKind == "" {
+		return nil
+	}
+	return map[string]string{"Location": e.Location}
 }
 
 type HTTPCase struct {
@@ -64,6 +118,19 @@ type HTTPCase struct {
 	// else enabled with that filter (all | warning = 4xx and 5xx | error = 5xx), which dumps request and response.
 	LogLevel string `json:"log_level,omitempty"`
 	AnswLog  string `json:"answlog,omitempty"`
+	// Gun is the gun kind: "" = http (HTTP/1.1 over TCP), connect (HTTP/1.1 through a CONNECT tunnel the target opens to
+	// itself), http2 (HTTP/2 over TLS; the failure kinds are the HTTP/2 counterparts: reset = RST_STREAM without an answer,
+	// short_body = the stream is reset after the headers and a first piece of the body; there is no chunked coding).
+	Gun string `json:"gun,omitempty"`
+	// RedirectOff: the gun's config says `redirect: false` in so many words instead of leaving the option at its default (false).
+	RedirectOff bool `json:"redirect_false_written,omitempty"`
+}
+
+func (c HTTPCase) gunName() string {
+	if c.Gun == "" {
+		return "http"
+	}
+	return c.Gun
 }
 
 // bodyCut: the exchange fails after status line and headers were received, while the body is read.
@@ -116,13 +183,46 @@ func (c HTTPCase) layoutName() string {
 }
 
 func genStatus(t *rapid.T) int {
-	switch rapid.IntRange(0, 5).Draw(t, "statusKind") {
+	switch rapid.IntRange(0, 6).Draw(t, "statusKind") {
 	case 0, 1:
 		return 200
 	case 2:
 		return rapid.SampledFrom([]int{201, 204, 301, 302, 304, 400, 401, 403, 404, 429, 500, 502, 503, 504, 599}).Draw(t, "statusCommon")
+	case 6:
+		return rapid.SampledFrom(redirectStatuses).Draw(t, "statusRedirect")
 	default:
 		return rapid.IntRange(200, 599).Draw(t, "status")
+	}
+}
+
+// genTag: one word, or (one tag in three) several words with blanks between them - a tag is the rest of the line behind
+// the blank that delimits it (raw: "<size> <tag>", uri: "<uri> <tag>", uripost: "<size> <uri> <tag>") or a JSON string
+// (http/json); pandora's own uri decoder test uses "some tag". Mostly single spaces, sometimes a run of spaces or a tab.
+func genTag(t *rapid.T) string {
+	word := rapid.StringMatching(`[a-zA-Z0-9_]{1,8}`)
+	tag := word.Draw(t, "tag")
+	if rapid.IntRange(0, 2).Draw(t, "tagMultiword") != 0 {
+		return tag
+	}
+	for k := rapid.IntRange(1, 3).Draw(t, "tagMoreWords"); k > 0; k-- {
+		tag += rapid.SampledFrom([]string{" ", " ", " ", " ", "  ", "\t", " : "}).Draw(t, "tagSep") + rapid.StringMatching(`[a-zA-Z0-9_.:=-]{1,6}`).Draw(t, "tagWord")
+	}
+	return tag
+}
+
+// genLocation draws the Location header of the entry's answer: most answers with a redirect status carry one (half of
+// them one that does not parse), some answers with another status do as well (201 Created, 3xx that are no redirects).
+func genLocation(t *rapid.T, e *Entry) {
+	kinds := []string{"", "", "", "", "", "", "wellformed", "malformed"}
+	if isRedirect(e.Status) {
+		kinds = []string{"", "empty", "wellformed", "wellformed", "malformed", "malformed", "malformed", "malformed"}
+	}
+	e.LocKind = rapid.SampledFrom(kinds).Draw(t, "locKind")
+	switch e.LocKind {
+	case "wellformed":
+		e.Location = rapid.SampledFrom(wellformedLocations).Draw(t, "location")
+	case "malformed":
+		e.Location = rapid.SampledFrom(malformedLocations).Draw(t, "location")
 	}
 }
 
@@ -137,10 +237,12 @@ func genHTTP(t *rapid.T) HTTPCase {
 		}
 		e.Slash = rapid.IntRange(0, 3).Draw(t, "slash") == 0
 		if rapid.Bool().Draw(t, "tagged") {
-			e.Tag = rapid.StringMatching(`[a-zA-Z0-9_]{1,8}`).Draw(t, "tag")
+			e.Tag = genTag(t)
 		}
+		genLocation(t, &e)
 		if rapid.IntRange(0, 4).Draw(t, "fails") == 0 {
-			e.Fail = rapid.SampledFrom([]string{"reset", "timeout", "short_body", "short_chunked"}).Draw(t, "fail")
+			// (short_chunked twice: the http2 cases, one in four, turn it into short_body)
+			e.Fail = rapid.SampledFrom([]string{"reset", "timeout", "short_body", "short_chunked", "short_chunked"}).Draw(t, "fail")
 			if e.bodyCut() && (e.Status == 204 || e.Status == 304) {
 				e.Status = 200 // these statuses carry no body, so there is no body to cut short
 			}
@@ -188,6 +290,16 @@ func genHTTP(t *rapid.T) HTTPCase {
 	// what is logged on the side: the codes of a sample do not depend on it
 	c.LogLevel = rapid.SampledFrom([]string{"", "info", "debug", "debug"}).Draw(t, "logLevel")
 	c.AnswLog = rapid.SampledFrom([]string{"", "", "all", "all", "warning", "error"}).Draw(t, "answLog")
+	// the gun kind: all of them build their client the same way and report through the same code
+	c.Gun = rapid.SampledFrom([]string{"", "", "connect", "http2"}).Draw(t, "gun")
+	if c.Gun == "http2" {
+		for i := range c.Entries {
+			if c.Entries[i].Fail == "short_chunked" {
+				c.Entries[i].Fail = "short_body" // HTTP/2 has no chunked coding
+			}
+		}
+	}
+	c.RedirectOff = rapid.Bool().Draw(t, "redirectFalseWritten")
 	return c
 }
 
@@ -291,8 +403,12 @@ func parsePhout(data string) ([]phoutLine, error) {
 			continue
 		}
 		f := strings.Split(ln, "\t")
-		if len(f) != 12 {
+		if len(f) < 12 {
 			return nil, fmt.Errorf("phout line has %d columns, expected 12: %q", len(f), ln)
+		}
+		// a tag may hold tabs of its own: the time is the first column, the ten numbers are the last ten, the tag is what is between
+		if extra := len(f) - 12; extra > 0 {
+			f = append([]string{f[0], strings.Join(f[1:2+extra], "\t")}, f[2+extra:]...)
 		}
 		tagid := f[1]
 		k := strings.LastIndex(tagid, "#")
@@ -326,36 +442,71 @@ func closedPort() string {
 }
 
 func checkHTTP(c HTTPCase, o *vf.Obs) error {
-	tg, mu := target.Shared(false)
-	mu.Lock()
-	defer mu.Unlock()
-	tg.Reset(func(seq int, r *target.Rec) target.Resp {
+	// the entry a request belongs to (nil: not one of this case's requests)
+	entryFor := func(r *target.Rec) *Entry {
 		i, ok := entryOf(r.Host, r.RequestURI)
 		if !ok || i < 0 || i >= len(c.Entries) {
-			return target.Resp{Status: 599}
+			return nil
 		}
-		e := c.Entries[i]
-		switch e.Fail {
-		case "reset":
-			return target.Resp{Hijack: func(conn net.Conn, _ ioRW) {
-				if tc, ok := conn.(*net.TCPConn); ok {
-					_ = tc.SetLinger(0)
-				}
-			}}
-		case "timeout":
-			return target.Resp{Status: e.Status, DelayMs: 600}
-		case "short_body":
-			return target.Resp{Hijack: func(conn net.Conn, rw ioRW) {
-				fmt.Fprintf(rw, "HTTP/1.1 %d X\r\nContent-Length: 100\r\nContent-Type: text/plain\r\n\r\nshort", e.Status)
-			}}
-		case "short_chunked":
-			// one whole chunk, then a chunk announced with 0x40 bytes of which 9 arrive before the connection is closed
-			return target.Resp{Hijack: func(conn net.Conn, rw ioRW) {
-				fmt.Fprintf(rw, "HTTP/1.1 %d X\r\nTransfer-Encoding: chunked\r\nContent-Type: text/plain\r\n\r\n5\r\nwhole\r\n40\r\ncut short", e.Status)
-			}}
-		}
-		return target.Resp{Status: e.Status, Body: []byte("body")}
-	})
+		return &c.Entries[i]
+	}
+	var addr string
+	if c.Gun == "http2" {
+		tg, mu := target.SharedH2(true)
+		mu.Lock()
+		defer mu.Unlock()
+		tg.Reset(nil, func(seq int, r *target.Rec, hs int) target.H2Resp {
+			e := entryFor(r)
+			if e == nil {
+				return target.H2Resp{Resp: target.Resp{Status: 599}}
+			}
+			resp := target.H2Resp{Resp: target.Resp{Status: e.Status, Header: e.respHeader(), Body: []byte("body")}}
+			switch e.Fail {
+			case "reset":
+				return target.H2Resp{AbortStream: true}
+			case "timeout":
+				resp.DelayMs = 600
+			case "short_body":
+				resp.AbortAfterHeaders = true
+			}
+			return resp
+		})
+		defer tg.Reset(nil, nil)
+		addr = tg.Addr()
+	} else {
+		tg, mu := target.Shared(false)
+		mu.Lock()
+		defer mu.Unlock()
+		tg.Reset(func(seq int, r *target.Rec) target.Resp {
+			ep := entryFor(r)
+			if ep == nil {
+				return target.Resp{Status: 599}
+			}
+			e := *ep
+			switch e.Fail {
+			case "reset":
+				return target.Resp{Hijack: func(conn net.Conn, _ ioRW) {
+					if tc, ok := conn.(*net.TCPConn); ok {
+						_ = tc.SetLinger(0)
+					}
+				}}
+			case "timeout":
+				return target.Resp{Status: e.Status, Header: e.respHeader(), DelayMs: 600}
+			case "short_body":
+				return target.Resp{Hijack: func(conn net.Conn, rw ioRW) {
+					fmt.Fprintf(rw, "HTTP/1.1 %d X\r\n%sContent-Length: 100\r\nContent-Type: text/plain\r\n\r\nshort", e.Status, e.locationHeader())
+				}}
+			case "short_chunked":
+				// one whole chunk, then a chunk announced with 0x40 bytes of which 9 arrive before the connection is closed
+				return target.Resp{Hijack: func(conn net.Conn, rw ioRW) {
+					fmt.Fprintf(rw, "HTTP/1.1 %d X\r\n%sTransfer-Encoding: chunked\r\nContent-Type: text/plain\r\n\r\n5\r\nwhole\r\n40\r\ncut short", e.Status, e.locationHeader())
+				}}
+			}
+			return target.Resp{Status: e.Status, Header: e.respHeader(), Body: []byte("body")}
+		})
+		defer tg.Reset(nil)
+		addr = tg.Addr()
+	}
 	f := ag.File{Format: c.Format}
 	for i, e := range c.Entries {
 		en := ag.Entry{Method: "GET", Tag: e.Tag}
@@ -390,13 +541,16 @@ func checkHTTP(c HTTPCase, o *vf.Obs) error {
 	if c.Preload {
 		ammoConf["preload"] = true
 	}
-	addr := tg.Addr()
 	if c.Refused {
 		addr = closedPort()
 	}
-	gun := map[string]any{"type": "http", "target": addr, "response-header-timeout": "200ms",
-		"dial":     map[string]any{"timeout": "2s"},
-		"auto-tag": map[string]any{"enabled": c.AutoTag, "uri-elements": c.Elements, "no-tag-only": c.NoTagOnly}}
+	gun := map[string]any{"type": c.gunName(), "target": addr, "response-header-timeout": "200ms",
+		"dial":                  map[string]any{"timeout": "2s"},
+		"tls-handshake-timeout": "10s", // (http2) connection set-up is not this check's subject
+		"auto-tag":              map[string]any{"enabled": c.AutoTag, "uri-elements": c.Elements, "no-tag-only": c.NoTagOnly}}
+	if c.RedirectOff {
+		gun["redirect"] = false
+	}
 	if c.AnswLog != "" {
 		// the answ log is a file of the real file system (lib/answlog: os.Create)
 		af, err := os.CreateTemp("", "c10-answ-*.log")
@@ -490,7 +644,13 @@ func checkHTTP(c HTTPCase, o *vf.Obs) error {
 	}
 	if len(diffs) > 0 {
 		sort.Strings(diffs)
-		return fmt.Errorf("%s: samples differ from the model (auto-tag enabled=%v elements=%d no-tag-only=%v; log level %q, answlog filter %q):\n  %s\n--- phout ---\n%s", c.what(), c.AutoTag, c.Elements, c.NoTagOnly, c.LogLevel, c.AnswLog, strings.Join(diffs, "\n  "), data)
+		var answers []string
+		for i, e := range c.Entries {
+			if e.LocKind != "" || e.Fail != "" {
+				answers = append(answers, fmt.Sprintf("entry %d (tag %q): status %d, fail %q, Location %s %q", i, e.Tag, e.Status, e.Fail, e.LocKind, e.Location))
+			}
+		}
+		return fmt.Errorf("%s: samples differ from the model (%s gun, redirect: false; auto-tag enabled=%v elements=%d no-tag-only=%v; log level %q, answlog filter %q):\n  %s\n--- answers scripted with a Location header or a failure ---\n  %s\n--- phout ---\n%s", c.what(), c.gunName(), c.AutoTag, c.Elements, c.NoTagOnly, c.LogLevel, c.AnswLog, strings.Join(diffs, "\n  "), strings.Join(answers, "\n  "), data)
 	}
 	nonOK, fails := false, false
 	// logging on the side x exchanges that fail while the body is read (entries that were shot, target reachable)
@@ -504,13 +664,43 @@ func checkHTTP(c HTTPCase, o *vf.Obs) error {
 			o.Class(name)
 		}
 	}
+	o.Class("gun_" + c.gunName())
 	for i, e := range c.Entries {
-		if i >= total || c.Refused {
+		if i >= total {
+			continue
+		}
+		// tags of several words (entries that were shot, whatever became of the request)
+		if strings.ContainsAny(e.Tag, " \t") {
+			mark(true, "tag_of_several_words")
+			mark(true, "tag_of_several_words_"+c.Format)
+			mark(strings.Contains(e.Tag, "\t") || strings.Contains(e.Tag, "  "), "tag_with_tab_or_run_of_spaces")
+			mark(c.AutoTag && !c.NoTagOnly, "tag_of_several_words_with_auto_tag_appended")
+		}
+		if c.Refused {
 			continue
 		}
 		if e.Fail == "" {
 			mark(c.LogLevel == "debug", "answered_with_debug_log")
 			mark(c.answLogged(e), "answered_and_answ_logged")
+			// answers with a redirect status / with a Location header, received in full
+			_, perr := url.Parse(e.Location)
+			unparsable := e.LocKind != "" && perr != nil
+			loc := map[string]string{"": "absent", "empty": "absent", "wellformed": "wellformed", "malformed": "malformed"}[e.LocKind]
+			if isRedirect(e.Status) {
+				mark(true, "redirect_answered")
+				mark(true, "redirect_answered_gun_"+c.gunName())
+				mark(true, "redirect_location_"+loc)
+				mark(e.LocKind == "empty", "redirect_location_empty")
+				mark(unparsable, fmt.Sprintf("redirect_%d_location_malformed", e.Status))
+				mark(unparsable, "redirect_location_malformed_gun_"+c.gunName())
+				mark(unparsable && c.RedirectOff, "redirect_location_malformed_redirect_false_written")
+				mark(unparsable && !c.RedirectOff, "redirect_location_malformed_redirect_left_at_default")
+				mark(unparsable && c.LogLevel == "debug", "redirect_location_malformed_debug_log")
+				mark(unparsable && c.answLogged(e), "redirect_location_malformed_answ_logged")
+			} else {
+				mark(unparsable, "location_malformed_on_other_status")
+				mark(e.LocKind == "wellformed", "location_wellformed_on_other_status")
+			}
 		}
 		if !e.bodyCut() {
 			continue
